@@ -29,7 +29,11 @@ func verif_NewProxyConfigurerFromMsg(m *msg.NewProxy, serverCfg *v1.ServerConfig
 	if err == nil {
 		b := c.GetBaseConfig()
 		verif.Ensures(b.Name == name0, "name_from_message")
-		verif.Ensures(b.Type == type0 || (type0 == "" && b.Type == "tcp"), "type_from_message_default_tcp")
+		if type0 == "" {
+			verif.Ensures(b.Type == "tcp", "type_defaults_to_tcp")
+		} else {
+			verif.Ensures(b.Type == type0, "type_from_message")
+		}
 		verif.Ensures(b.Transport.BandwidthLimitMode != "", "completed")
 		verif.Ensures(verif.CalledWith("validation.ValidateProxyConfigurerForServer", 0, c), "returned_configuration_was_validated")
 		if v, ok := c.(*v1.HTTPProxyConfig); ok && k >= 0 && k < len(v.CustomDomains) {
